@@ -36,6 +36,8 @@ def main():
         meta = json.load(open(os.path.join(d, "meta.json")))
         feats = (meta.get("features") or "").strip()
         featarg = ("--features " + ",".join(feats.replace("--features", "").replace(",", " ").split())) if feats and feats not in ("none", "-") else ""
+        if os.environ.get("DEMO_RELEASE") or "release" in str(meta.get("profiles", "")).lower() and "only" in str(meta.get("profiles", "")).lower():
+            featarg = (featarg + " --release").strip()          # a defect of the optimised build only: run its demonstration there
         r = dict(property=prop, name=name, summary=meta.get("summary"), site=meta.get("site"), needs=meta.get("needs"), features=feats)
         sh("git checkout -- . && rm -f tests/seeded_demo.rs examples/seeded_demo.rs", cwd=wt)
         rc, o = sh("git apply --check OUT/%s/patch.diff && git apply OUT/%s/patch.diff" % (name, name), cwd=wt)
